@@ -525,8 +525,12 @@ impl ClusterActor {
                             break 'iter;
                         }
 
-                        // Check if event is beyond effective end sequence
-                        if event.partition_sequence > effective_end_sequence {
+                        // Check if event is beyond effective end sequence (inclusive) or not below
+                        // the watermark (the watermark is the NUMBER of confirmed events, so the
+                        // event at `watermark` itself is not confirmed yet)
+                        if event.partition_sequence > effective_end_sequence
+                            || event.partition_sequence >= watermark
+                        {
                             break 'iter;
                         }
 
@@ -669,7 +673,7 @@ impl ClusterActor {
 
                         // Check if event is beyond watermark (safety check - uses
                         // partition_sequence)
-                        if event.partition_sequence > watermark {
+                        if event.partition_sequence >= watermark {
                             break 'iter;
                         }
 
